@@ -579,24 +579,33 @@ func (ndb *nodeDB) deleteLegacyVersions(legacyLatestVersion int64) error {
 	}
 
 	// Delete orphans for all legacy versions
-	if err := ndb.traversePrefix(legacyOrphanKeyFormat.Key(), func(key, value []byte) error {
+	// (the entries are collected before the batch is written to, see DeleteVersionsFrom)
+	orphans, err := ndb.collectPrefix(legacyOrphanKeyFormat.Key())
+	if err != nil {
+		return err
+	}
+	for _, kv := range orphans {
+		key, value := kv[0], kv[1]
 		if err := ndb.deleteFromPruning(key); err != nil {
 			return err
 		}
 		var fromVersion, toVersion int64
 		legacyOrphanKeyFormat.Scan(key, &toVersion, &fromVersion)
 		if (fromVersion <= legacyLatestVersion && toVersion < legacyLatestVersion) || fromVersion > legacyLatestVersion {
-			return ndb.deleteFromPruning(ndb.legacyNodeKey(value))
+			if err := ndb.deleteFromPruning(ndb.legacyNodeKey(value)); err != nil {
+				return err
+			}
 		}
-		return nil
-	}); err != nil {
-		return err
 	}
 	// Delete all legacy roots
-	if err := ndb.traversePrefix(legacyRootKeyFormat.Key(), func(key, _ []byte) error {
-		return ndb.deleteFromPruning(key)
-	}); err != nil {
+	legacyRoots, err := ndb.collectPrefix(legacyRootKeyFormat.Key())
+	if err != nil {
 		return err
+	}
+	for _, kv := range legacyRoots {
+		if err := ndb.deleteFromPruning(kv[0]); err != nil {
+			return err
+		}
 	}
 
 	return nil
@@ -628,7 +637,15 @@ func (ndb *nodeDB) DeleteVersionsFrom(fromVersion int64) error {
 	}
 	dumpFromVersion := fromVersion
 	if legacyLatestVersion >= fromVersion {
-		if err := ndb.traverseRange(legacyRootKeyFormat.Key(fromVersion), legacyRootKeyFormat.Key(legacyLatestVersion+1), func(k, v []byte) error {
+		// The entries are collected first: the batch must not be written to while the storage
+		// iterator is open, because an automatic flush of the batch blocks for ever on stores
+		// whose iterators hold a lock (MemDB).
+		legacyRoots, err := ndb.collectRange(legacyRootKeyFormat.Key(fromVersion), legacyRootKeyFormat.Key(legacyLatestVersion+1))
+		if err != nil {
+			return err
+		}
+		for _, kv := range legacyRoots {
+			k, v := kv[0], kv[1]
 			var version int64
 			legacyRootKeyFormat.Scan(k, &version)
 			// delete the legacy nodes
@@ -637,20 +654,27 @@ func (ndb *nodeDB) DeleteVersionsFrom(fromVersion int64) error {
 			}
 			// it will skip the orphans because orphans will be removed at once in `deleteLegacyVersions`
 			// delete the legacy root
-			return ndb.batch.Delete(k)
-		}); err != nil {
-			return err
+			if err := ndb.batch.Delete(k); err != nil {
+				return err
+			}
 		}
 		// Update the legacy latest version forcibly
 		ndb.legacyLatestVersion = 0
 		fromVersion = legacyLatestVersion + 1
 	}
 
-	// Delete the nodes for new format
+	// Delete the nodes for new format (collected first, see above)
+	var nodeKeys [][]byte
 	if err = ndb.traverseRange(nodeKeyPrefixFormat.KeyInt64(fromVersion), nodeKeyPrefixFormat.KeyInt64(latest+1), func(k, _ []byte) error {
-		return ndb.batch.Delete(k)
+		nodeKeys = append(nodeKeys, append([]byte(nil), k...))
+		return nil
 	}); err != nil {
 		return err
+	}
+	for _, k := range nodeKeys {
+		if err = ndb.batch.Delete(k); err != nil {
+			return err
+		}
 	}
 
 	// NOTICE: we don't touch fast node indexes here, because it'll be rebuilt later because of version mismatch.
@@ -1083,6 +1107,26 @@ func (ndb *nodeDB) traverseRange(start []byte, end []byte, fn func(k, v []byte) 
 	}
 
 	return itr.Error()
+}
+
+// collectRange returns copies of the entries in [start, end); the storage iterator is closed on return.
+func (ndb *nodeDB) collectRange(start, end []byte) ([][2][]byte, error) {
+	var entries [][2][]byte
+	err := ndb.traverseRange(start, end, func(k, v []byte) error {
+		entries = append(entries, [2][]byte{append([]byte(nil), k...), append([]byte(nil), v...)})
+		return nil
+	})
+	return entries, err
+}
+
+// collectPrefix returns copies of the entries with the given prefix; the storage iterator is closed on return.
+func (ndb *nodeDB) collectPrefix(prefix []byte) ([][2][]byte, error) {
+	var entries [][2][]byte
+	err := ndb.traversePrefix(prefix, func(k, v []byte) error {
+		entries = append(entries, [2][]byte{append([]byte(nil), k...), append([]byte(nil), v...)})
+		return nil
+	})
+	return entries, err
 }
 
 // Traverse all keys with a certain prefix. Return error if any, nil otherwise
